@@ -115,13 +115,14 @@ def hCompat : Handler := fun j => do
   let nonneg := vals.all (fun v => v ≥ 0.0)
   let sym := bitEq linAB linBA && bitEq fastAB fastBA
   let agree := relClose linAB fastAB
-  let eqFormula := relClose linAB formula && relClose fastAB formula
+  -- the value users get is the dispatcher's (`Genome.compatibility` selects the method from the options): it must be the formula too
+  let eqFormula := relClose linAB formula && relClose fastAB formula && relClose dLin formula && relClose dFast formula
   let selfZero := !(family == "self" || family == "duplicate") || (linAB == 0.0 && fastAB == 0.0)
   let countsOk := (compatLinearAcc a b).cnt == c && ((a.genes.isEmpty || b.genes.isEmpty) || (compatFastAcc o a b).cnt == c)
   let spec := !sorted || (noNaN && nonneg && sym && agree && eqFormula && selfZero)
   let why := if spec then "" else
     if !noNaN then "NaN" else if !nonneg then "negative" else if !sym then "asymmetric"
-    else if !agree then s!"linear {linAB} vs fast {fastAB}" else if !eqFormula then s!"formula {formula} vs linear {linAB} fast {fastAB} (E={c.excess} D={c.disjoint} M={c.matching})"
+    else if !agree then s!"linear {linAB} vs fast {fastAB}" else if !eqFormula then s!"formula {formula} vs linear {linAB} fast {fastAB} dispatcher {dLin}/{dFast} (E={c.excess} D={c.disjoint} M={c.matching})"
     else "self/duplicate distance not zero"
   let nontriv := c.excess > 0 && c.disjoint > 0 && c.matching > 0
   return { corr := corr && (!sorted || countsOk), spec := spec, nontrivial := nontriv, cls := family,
